@@ -850,7 +850,7 @@ class QueryBuilder(Selectable, Term):  # type:ignore[misc]
             return " DO NOTHING"
         elif len(self._on_conflict_do_updates) > 0:
             updates = []
-            value_ctx = ctx.copy(with_namespace=True)
+            value_ctx = ctx.copy(with_namespace=True, subquery=True)
             for field, value in self._on_conflict_do_updates:
                 if value:
                     updates.append(
@@ -1697,6 +1697,7 @@ class QueryBuilder(Selectable, Term):  # type:ignore[misc]
         otherwise the entire field will be rendered as SQL.
         """
         clauses = []
+        ctx = ctx.copy(subquery=True)
         selected_aliases = {s.alias for s in self._selects}
         for field in self._groupbys:
             if (alias := field.alias) and alias in selected_aliases:
@@ -1732,6 +1733,7 @@ class QueryBuilder(Selectable, Term):  # type:ignore[misc]
         the alias, otherwise the field will be rendered as SQL.
         """
         clauses = []
+        ctx = ctx.copy(subquery=True)
         selected_aliases = {s.alias for s in self._selects}
         for field, directionality in self._orderbys:
             term = (
@@ -1768,6 +1770,7 @@ class QueryBuilder(Selectable, Term):  # type:ignore[misc]
 
     def _set_sql(self, ctx: SqlContext) -> str:
         field_ctx = ctx.copy(with_namespace=False)
+        ctx = ctx.copy(subquery=True)
         return " SET {set}".format(
             set=",".join(
                 "{field}={value}".format(
